@@ -11,8 +11,8 @@ import ocf
 PROP = 'C03'
 THEOREMS = ['C03_finished_file', 'C03_reads_back', 'C03_failed_append_no_trace', 'C03_reopen_continues', 'C03_example']
 CFG = '(cfg 536870912 56 80)'
-RULE = ('histories over {append, unvalidated append, append rejected by validation, append whose encoding '
-        'fails after partial output, flush, add_user_metadata (before/after header, avro.* keys), reset, '
+RULE = ('histories over {append, unvalidated append, append_ser, extend_from_slice (all good / one rejected value), append rejected by '
+        'validation, unvalidated append and append_ser that fail after partial output, reset with values pending, flush, add_user_metadata (before/after header, avro.* keys), reset, '
         'into_inner, drop, append_to-style reopen} x block sizes {0,1,around the value size,16000} x codecs x 3 '
         'schema families (zero-width, fixed-width, variable-width record with a trailing nullable field). '
         'non-trivial = distinct histories with >= 2 blocks and at least one failed append')
@@ -56,22 +56,65 @@ def gen_cases(tier, seed):
                 ops.append('(append %s)' % good(r)); kinds.append('append')
             elif k < 10:
                 ops.append('(append-unvalidated %s)' % good(r)); kinds.append('append')
-            elif k < 12:
+            elif k < 11:
                 ops.append('(append (union 99 (null)))'); kinds.append('invalid')
+            elif k < 12:
+                vs = [good(r) for _ in range(r.range(0, 3))]
+                if r.chance(1, 3):
+                    vs.insert(r.below(len(vs) + 1), '(union 99 (null))')
+                    ops.append('(extend %s)' % ' '.join(vs)); kinds.append('extend-bad')
+                else:
+                    ops.append('(extend %s)' % ' '.join(vs)); kinds.append('extend')
             elif k < 14 and partial:
-                ops.append('(append %s)' % partial(r)); kinds.append('partial')
+                # rejected by validation / encoder fails after partial output / serializer fails after partial output
+                w = r.below(4)
+                if w == 0:
+                    ops.append('(append %s)' % partial(r)); kinds.append('partial')
+                elif w == 1:
+                    ops.append('(append-unvalidated %s)' % partial(r)); kinds.append('partial')
+                elif w == 2:
+                    ops.append('(append-ser-bad %d)' % r.range(-2**40, 2**40)); kinds.append('partial')
+                else:
+                    ops.append('(append-ser %d %s%s)' % (r.range(-2**40, 2**40), hx('s' * r.below(20)), (' %d' % r.below(1000)) if r.chance(1, 2) else '')); kinds.append('append')
             elif k < 16:
                 ops.append('(flush)'); kinds.append('flush')
             elif k < 18:
                 key = r.choice(['k', 'user.key', 'avro.x', 'k2', 'k'])
                 ops.append('(meta %s %s)' % (hx(key), hx(r.bytes(r.below(5))))); kinds.append('meta')
             elif k < 19:
+                if r.chance(1, 2):
+                    # reset with values still pending, then an append that fails after partial output
+                    ops.append('(append %s)' % good(r)); kinds.append('append')
                 ops.append('(reset)'); kinds.append('reset')
+                if partial and r.chance(1, 2):
+                    ops.append(r.choice(['(append-unvalidated %s)' % partial(r), '(append-ser-bad %d)' % r.below(100)])); kinds.append('partial')
             else:
                 ops.append(r.choice(['(finish)', '(drop)'])); kinds.append('finish'); open_ = False
         cid = 'w%d' % i
         lines.append('%s (cfile %s %s %d %s %s)' % (cid, hx(st), codec, bsz, hx(marker), ' '.join(ops)))
         meta[cid] = dict(schema=st, codec=codec, bsz=bsz, marker=marker, ops=ops, kinds=kinds)
+    # directed: pending values discarded by reset, then a failing append with partial output, then a good one
+    st, good, partial = FAMILIES[2]
+    k = 0
+    for codec in ['null', 'deflate', 'snappy'] if tier == 'quick' else ['null', 'deflate', 'snappy', 'bzip2', 'xz', 'zstandard']:
+        for bsz in [16000, 60]:
+            for first in [['(append %s)'], ['(append %s)', '(append-unvalidated %s)'], []]:
+                for failing in ['(append-unvalidated %s)', '(append-ser-bad 7)', '(extend %s (union 99 (null)))']:
+                    r = rng.fork(50000 + k)
+                    ops = [f % good(r) for f in first] + ['(reset)']
+                    kinds = ['append'] * len(first) + ['reset']
+                    if '%s' in failing:
+                        ops.append(failing % (good(r) if failing.startswith('(extend') else partial(r)))
+                    else:
+                        ops.append(failing)
+                    kinds.append('extend-bad' if failing.startswith('(extend') else 'partial')
+                    ops.append('(append %s)' % good(r)); kinds.append('append')
+                    ops.append('(append-ser 5 %s 9)' % hx('tail')); kinds.append('append')
+                    ops.append(r.choice(['(flush)', '(finish)', '(drop)'])); kinds.append('flush' if ops[-1] == '(flush)' else 'finish')
+                    cid = 'd%d' % k; k += 1
+                    marker = r.bytes(16)
+                    lines.append('%s (cfile %s %s %d %s %s)' % (cid, hx(st), codec, bsz, hx(marker), ' '.join(ops)))
+                    meta[cid] = dict(schema=st, codec=codec, bsz=bsz, marker=marker, ops=ops, kinds=kinds)
     return lines, meta
 
 def expected_values(ops, results):
@@ -79,8 +122,14 @@ def expected_values(ops, results):
     vals = []
     for op, res in zip(ops, results):
         t = parse(op)
-        if tag(t) in ('append', 'append-unvalidated') and tag(res) == 'ok':
+        if tag(t) in ('append', 'append-unvalidated', 'append-ser') and tag(res) == 'ok':
             vals.append(res[1])
+        elif tag(t) == 'extend':
+            # every value before the first rejected one was appended
+            for src, shown in zip(t[1:], res[1:]):
+                if show(src) == '(union 99 (null))':
+                    break
+                vals.append(shown)
         elif tag(t) == 'reset':
             vals = []
     return vals
@@ -107,7 +156,7 @@ def evaluate(run, lines, meta, exe, drv):
         run.count('impl:' + str(tag(o)))
         if tag(o) == 'schema-err':
             continue
-        case = {k: (v.hex() if isinstance(v, bytes) else v) for k, v in mt.items() if k != 'kinds'}
+        case = {k: (v.hex() if isinstance(v, bytes) else v) for k, v in mt.items() if k not in ('kinds', 'groups')}
         if tag(o) != 'obs':
             run.fail('impl-' + str(tag(o)), 'implementation outcome %s' % show(o)[:200], case)
             continue
@@ -122,14 +171,36 @@ def evaluate(run, lines, meta, exe, drv):
                 hmeta, hmarker = [], mt['marker']
             sjson = dict(hmeta).get(b'avro.schema', b'')
             mops = []
+            groups = []
             for op, res in zip(mt['ops'], o[2][1:]):
                 t = parse(op)
+                n0 = len(mops)
                 if tag(t) in ('append', 'append-unvalidated'):
                     mops.append('(%s %s)' % (t[0], show(res[1])))
+                elif tag(t) == 'append-ser':
+                    mops.append('(append-unvalidated %s)' % show(res[1]))
+                elif tag(t) == 'append-ser-bad':
+                    # the serializer writes field a, then fails on field s: the encoder model fails on the missing field
+                    mops.append('(append-unvalidated (record (kv #61 (long %s))))' % t[1])
+                elif tag(t) == 'extend':
+                    bad = False
+                    for src, shown in zip(t[1:], res[1:]):
+                        mops.append('(append %s)' % show(shown))
+                        if show(src) == '(union 99 (null))':
+                            bad = True
+                            break
+                    if not bad:
+                        mops.append('(flush)')
+                    if len(mops) == n0:
+                        mops.append('(flush)')
+                    groups.append(len(mops) - n0)
+                    continue
                 elif tag(t) == 'reset':
                     mops.append('(reset %s)' % hx(hmarker))
                 else:
                     mops.append(op)
+                groups.append(len(mops) - n0)
+            mt['groups'] = groups
             if not mt['kinds'] or mt['kinds'][-1] != 'finish':
                 mops.append('(drop)')        # the harness drops the still-open writer at the end
             if sjson or not sink:
@@ -140,7 +211,7 @@ def evaluate(run, lines, meta, exe, drv):
     model = fw.run_lines(drv, mlines)
     for cid, o in parsed.items():
         mt = meta[cid]
-        case = {k: (v.hex() if isinstance(v, bytes) else v) for k, v in mt.items() if k != 'kinds'}
+        case = {k: (v.hex() if isinstance(v, bytes) else v) for k, v in mt.items() if k not in ('kinds', 'groups')}
         results = o[2][1:]
         sink = unhx(o[3])
         finished = bool(mt['kinds']) and (mt['kinds'][-1] == 'finish' or True)   # the harness drops the writer at the end
@@ -150,7 +221,9 @@ def evaluate(run, lines, meta, exe, drv):
         for op, kind, res in zip(mt['ops'], mt['kinds'], results):
             if kind == 'append' and tag(res) != 'ok':
                 run.fail('good-append-fails', 'a conforming value failed to append: %s' % show(res)[:100], case)
-            if kind in ('invalid', 'partial') and tag(res) == 'ok':
+            if kind == 'extend' and tag(res) != 'ok':
+                run.fail('good-append-fails', 'extending with conforming values failed', case)
+            if kind in ('invalid', 'partial', 'extend-bad') and tag(res) == 'ok':
                 run.fail('bad-append-accepted', 'an append that must fail returned ok', case)
         if not sink:
             if want:
@@ -178,7 +251,10 @@ def evaluate(run, lines, meta, exe, drv):
                 run.disagree('cfile', case, show(o[2])[:200], show(m)[:200])
             else:
                 ir = [1 if tag(x) == 'ok' else 0 for x in results]
-                mr = [int(x) for x in m[1][1:]][:len(ir)]
+                flat = [int(x) for x in m[1][1:]]
+                mr, pos = [], 0
+                for g in mt.get('groups', [1] * len(ir)):
+                    mr.append(1 if all(flat[pos:pos + g]) else 0); pos += g
                 msink = unhx(m[2])
                 if ir != mr:
                     run.disagree('results', case, str(ir), str(mr))
@@ -200,7 +276,7 @@ def evaluate(run, lines, meta, exe, drv):
                 pass
         run.count('codec:' + mt['codec'])
         run.count('blocks:%s' % ('0' if nblocks == 0 else '1' if nblocks == 1 else '2+'))
-        if nblocks >= 2 and any(k in ('invalid', 'partial') for k in mt['kinds']):
+        if nblocks >= 2 and any(k in ('invalid', 'partial', 'extend-bad') for k in mt['kinds']):
             run.nontrivial_case(repr([mt['schema'], mt['codec'], mt['bsz'], mt['ops']]))
             run.sample({'schema': mt['schema'][:80], 'codec': mt['codec'], 'block_size': mt['bsz'], 'ops': [x[:50] for x in mt['ops']]}, limit=4)
 
